@@ -647,6 +647,15 @@ pub fn open_loop(run: &mut Run, cfg: &SCfg, t0: u64, iters: usize, clears: bool,
     let et = error_token(&tracer, failed.as_ref(), run, &ctx);
     truth.check_totals(run, &ctx, &tracer);
     check_nat(run, &ctx, cfg, &tracer);
+    // C15: on a path that never changes (every hop always answers from the same address) all rounds belong to one flow
+    if FIXED_RESPONDERS.with(std::cell::Cell::get) {
+        let snap = tracer.snapshot();
+        if snap.flows().len() > 1 {
+            run.fail("c15-stack-stable-path-flows", format!("{ctx}: the path never changed, yet {} flows were registered: {:?}", snap.flows().len(),
+                snap.flows().iter().map(|(f, id)| format!("{}:{f}", id.0)).collect::<Vec<_>>()));
+        }
+        run.count("c15:stack-stable-path-checked");
+    }
     let dump = match guarded(|| crate::agg::show_full(&tracer.snapshot())) {
         Ok(s) => format!("{s} error={et}"),
         Err(loc) => {
@@ -930,8 +939,17 @@ fn gen_cfg(rng: &mut Rng, proto: char, v6: bool) -> SCfg {
     }
 }
 
+thread_local! {
+    /// directed cases: every router answers from one fixed address (a path that never changes)
+    static FIXED_RESPONDERS: std::cell::Cell<bool> = const { std::cell::Cell::new(false) };
+}
+
 fn responder_at(cfg: &SCfg, ttl: u8, path_len: u8, rng: &mut Rng) -> IpAddr {
-    if ttl >= path_len { cfg.dst } else { crate::wire_gen::responder(cfg.v6(), rng) }
+    if ttl >= path_len { return cfg.dst; }
+    if FIXED_RESPONDERS.with(std::cell::Cell::get) {
+        return if cfg.v6() { IpAddr::V6(std::net::Ipv6Addr::new(0xfd00, 0, 0, 0, 0, 0, 0x77, u16::from(ttl))) } else { IpAddr::V4(std::net::Ipv4Addr::new(10, 77, ttl, 1)) };
+    }
+    crate::wire_gen::responder(cfg.v6(), rng)
 }
 
 /// a genuine ICMP answer to `p`: a quotation of the bytes dispatched for it, from `from`
@@ -1218,6 +1236,17 @@ pub fn run(rng: &mut Rng, thorough: bool, _corpus: &[String]) -> Run {
         };
         run.count("directed:tcp-expiry-and-completion-in-one-poll");
         open_loop(&mut run, &cfg, 0, 60, false, &mut plan, rng);
+    }
+    // a path that never changes (fixed responder per hop), with local port collisions for TCP and transient send
+    // failures otherwise: one flow (C15), totals per hop (C01)
+    for (proto, v6) in [('t', false), ('t', true), ('i', false), ('u', true), ('u', false)] {
+        let mut cfg = gen_cfg(rng, proto, v6);
+        cfg.first = 1; cfg.max = 8; cfg.inflight = 24; cfg.max_rounds = Some(8); cfg.max_flows = 5;
+        let mut plan = plan_path(4, 0, 1);
+        FIXED_RESPONDERS.with(|c| c.set(true));
+        run.count("directed:stable-path-one-flow");
+        open_loop(&mut run, &cfg, 0, 500, false, &mut plan, rng);
+        FIXED_RESPONDERS.with(|c| c.set(false));
     }
     // an outage: a target that never answers (beyond max-ttl), routers that answer for a while and then fall silent
     // for the rest of the trace — the rounds report a shorter and shorter path, the hops that were probed and
